@@ -426,6 +426,17 @@ def build_generic(name):
     return lib.SimpleShape(lib.JordanCurve.from_ctrlpoints(ctrl))
 
 
+def build_scaled(name, factor):
+    """A Q leaf with all control points multiplied by factor (string 'p/q' -> exact binary
+    fraction expected), built from the scaled control points (not by the library's scale)."""
+    from . import lib
+
+    f = float(F(factor))
+    S = build_leaf(name)
+    ctrl = [[(float(p._x) * f, float(p._y) * f) for p in sg.ctrlpoints] for sg in S.jordans[0].segments]
+    return lib.SimpleShape(lib.JordanCurve.from_ctrlpoints(ctrl))
+
+
 def build_cq(name):
     """Curved composite shapes built with the constructors."""
     from . import lib
@@ -458,6 +469,8 @@ def expr_id(e):
         return "CQ." + e[1]
     if t == "G":
         return "affine(" + e[1] + ")"
+    if t == "SCL":
+        return "scaled(%s x %s)" % (e[1], e[2])
     if t == "SP":
         return "split(" + expr_id(e[1]) + ")"
     if t == "PC":
@@ -479,7 +492,7 @@ def expr_leaves(e):
     t = e[0]
     if t in ("L", "V", "PC", "WL"):
         return [e]
-    if t in ("MV", "CQ", "G", "SP"):
+    if t in ("MV", "CQ", "G", "SP", "SCL"):
         return [e]
     if t in ("E", "W"):
         return []
@@ -502,6 +515,8 @@ def lib_eval(e, trace=None):
         return build_cq(e[1])
     if t == "G":
         return build_generic(e[1])
+    if t == "SCL":
+        return build_scaled(e[1], e[2])
     if t == "SP":
         # the same shape with redundant vertices: every boundary curve split at two places
         X = lib_eval(e[1])
@@ -559,6 +574,8 @@ def model_eval(e):
         return rg.interpret(build_cq(e[1]))
     if t == "G":
         return rg.interpret(build_generic(e[1]))
+    if t == "SCL":
+        return rg.interpret(build_scaled(e[1], e[2]))
     if t == "SP":
         return model_eval(e[1])
     if t == "MV":
